@@ -18,6 +18,7 @@ the remaining calls run in the "restarted process".
 """
 import builtins
 import errno
+import hashlib
 import io
 import json
 import os
@@ -185,6 +186,27 @@ builtins.open = _open
 io.open = _open
 
 
+def poisoned_content_keys(root):
+    """content keys whose pointer is complete (names an existing file) but whose bytes do not hash to the key"""
+    bad = []
+    cdir = os.path.join(root, "c")
+    if os.path.isdir(cdir):
+        for name in sorted(os.listdir(cdir)):
+            if not name.endswith(".link"):
+                continue
+            try:
+                with _real_open(os.path.join(cdir, name)) as f:
+                    target = f.read()
+                if not target or not os.path.isfile(target):
+                    continue                     # never completely written: the key does not exist
+                with _real_open(target, "rb") as f:
+                    if hashlib.sha256(f.read()).hexdigest() != name[:-5]:
+                        bad.append(name[:12])
+            except OSError:
+                continue
+    return bad
+
+
 def restart(base, budget):
     mb = (budget / 1048576.0) if budget else None
     backend = FilesystemStorageBackend(path=os.path.join(base, "data"), memory_cache_mb=mb)
@@ -243,7 +265,8 @@ def run_job(job):
                                "msg": "" if exc is None else str(exc)[:150],
                                "bodies": [[k, n] for k, n in sorted(bodies.items())],
                                "faulted": fired,
-                               "variant": fault["variant"] if fired else ""})
+                               "variant": fault["variant"] if fired else "",
+                               "poisoned": poisoned_content_keys(root)})
             if crashed:
                 restart(base, job["cfg"].get("budget", 0))
         return {"cfg": job["cfg"], "ev": events, "opcounts": opcounts, "oplists": oplists if job.get("want_ops") else None,
